@@ -49,6 +49,7 @@ let () =
     | "aobs" -> M_aobs.run_line
     | "drain" -> M_drain.run_line
     | "bcast" -> M_bcast.run_line
+    | "hand" -> M_hand.run_line
     | "e2e" -> (fun _ -> print_string "-\n")   (* oracle-only stream: see DESIGN.md, mode e2e *)
     | _ -> failwith ("unknown mode " ^ mode) in
   iter_lines stdin (fun line -> if line <> "" then f line)
